@@ -162,23 +162,26 @@ Definition error_part (part : sgn_part) (e : tok) (created : Z) : sgn_part :=
 Lemma error_outcomes ev p g b req :
   Aw p g b ->
   action_sgn_error ev p req = CbErr p \/
-  exists pid e created part p' g',
-    req = RSigError pid (Some e) created /\
+  exists pid e created bb part p' g',
+    req = RSigError pid (Some e) created bb /\ (bb = 0%N \/ bb = b) /\
     qget (gc_quorum g) pid = Some part /\ gp_status part = SgnAwait /\
     action_sgn_error ev p req = CbOk "" None p' /\ Aw p' g' b /\
     gc_quorum g' = qset (gc_quorum g) pid (error_part part e created) /\
     gc_src g' = gc_src g /\ p_threshold p' = p_threshold p /\ p_dkg p' = p_dkg p.
 Proof.
   intros (Hg & Hb & Hb0 & Hs & Hl). unfold action_sgn_error.
-  destruct req as [| | | | | |pid err created| | |]; try (left; reflexivity).
+  destruct req as [| | | | | |pid err created bb| | |]; try (left; reflexivity).
   destruct err as [e|]; [|left; reflexivity].
   destruct ((pid <? 0) || is_zero_time created); [left; reflexivity|].
   rewrite Hg.
   destruct (qget (gc_quorum g) pid) as [part|] eqn:Eq; [|left; reflexivity].
+  assert (Hbb : negb (N.eqb bb 0) && negb (N.eqb bb (gc_batch g)) = false -> bb = 0%N \/ bb = b).
+  { rewrite Hb. destruct (N.eqb_spec bb 0); [auto|]. destruct (N.eqb_spec bb b); [auto|discriminate]. }
+  destruct (negb (N.eqb bb 0) && negb (N.eqb bb (gc_batch g))) eqn:Ebb; [left; reflexivity|]. specialize (Hbb eq_refl).
   destruct (N.eqb_spec (gp_status part) SgnAwait) as [Es|Es]; cbn [negb]; [|left; reflexivity].
   right. unfold set_sig_updated, set_sgn. cbn [p_sig].
   destruct (p_sig p) as [sc|] eqn:Esig; [|contradiction].
-  exists pid, e, created, part. do 2 eexists. split; [reflexivity|]. split; [exact Eq|]. split; [exact Es|].
+  exists pid, e, created, bb, part. do 2 eexists. split; [reflexivity|]. split; [exact Hbb|]. split; [exact Eq|]. split; [exact Es|].
   split; [reflexivity|]. split.
   - unfold Aw. cbn [p_sgn p_sig gc_batch gc_expires gc_updated]. repeat split; try assumption; discriminate.
   - cbn [p_sgn p_threshold p_dkg gc_quorum gc_src]. repeat split; reflexivity.
@@ -308,7 +311,7 @@ Fixpoint collected (now : Z) (d : dump) (l : list input) : list tok :=
    well-formed answers to b (their late answers to other batches may be there too) *)
 Definition honest_only (b : tok) (H : list Z) (x : input) : Prop :=
   forall i, In i H ->
-    (fst x = ev_sgn_error -> forall e c, snd x <> RSigError i e c) /\
+    (fst x = ev_sgn_error -> forall e c bb, snd x = RSigError i e c bb -> bb <> 0%N /\ bb <> b) /\
     (fst x = ev_sgn_partial -> forall signs c, snd x = RPartial b i signs c -> good_req b i (snd x)).
 
 Definition h_status (b : tok) (g : sgn_conf) (l : list input) (i : Z) : Prop :=
@@ -384,19 +387,19 @@ Proof.
         -- rewrite (round_step_collects _ _ _ _ _ _ (do_partial_collects _ _ _ _ _ Hok Hval)).
            change (String.eqb st_partial_collected st_partial_collected) with true. left. reflexivity.
     + destruct (String.eqb_spec ev ev_sgn_error) as [->|Hne].
-      * destruct (error_outcomes ev_sgn_error p g b req Haw) as [Herr|(pid & e & created & part & p' & g' & -> & Hq & Hsa & Hok & Haw' & Hq' & Hsrc & Hthr & Hdkg)].
+      * destruct (error_outcomes ev_sgn_error p g b req Haw) as [Herr|(pid & e & created & bb & part & p' & g' & -> & Hbb & Hq & Hsa & Hok & Haw' & Hq' & Hsrc & Hthr & Hdkg)].
         -- rewrite (round_step_rej _ _ _ _ (do_error_rejected _ _ _ Herr)).
            apply (IH p g Haw Ht Hnd HtH); [|exact Hc|exact Hr].
            apply (Hkeep g eq_refl). intros i Hi parti Hqi Hai rq Hgood Heq. inversion Heq.
         -- assert (Hnot : ~ In pid H).
-           { intros Hin. destruct (Hx pid Hin) as (He & _). apply (He eq_refl (Some e) created). reflexivity. }
+           { intros Hin. destruct (Hx pid Hin) as (He & _). destruct (He eq_refl (Some e) created bb eq_refl) as [H0 Hb']. destruct Hbb; contradiction. }
            assert (Hst' : forall i, In i H -> h_status b g' r i).
            { intros i Hi. assert (Hne : i <> pid) by (intros ->; contradiction).
              destruct (Hst i Hi) as (parti & Hqi & [Hcf|[Ha (rq & Hin & Hgood)]]);
                exists parti; rewrite Hq', (qget_qset_other _ _ _ _ Hne); (split; [exact Hqi|]); [left; exact Hcf|].
              right. split; [exact Ha|]. exists rq. split; [|exact Hgood].
              destruct Hin as [Heq|Hin]; [|exact Hin]. inversion Heq. }
-           destruct (validate_cases ev_validate p' g' b (RSigError pid (Some e) created) Haw')
+           destruct (validate_cases ev_validate p' g' b (RSigError pid (Some e) created bb) Haw')
              as [(Hcancel & _)|[(Hf & Hc' & Hval)|(Hf & Hc' & entries & p'' & Hval & _)]].
            ++ exfalso. pose proof (errors_bounded (gc_quorum g') H Hnd (h_not_error b g' r H Hst')) as Hb. lia.
            ++ rewrite (round_step_stays _ _ _ _ _ (do_error_stays _ _ _ Hok Hval)).
@@ -569,7 +572,8 @@ Definition ex_inputs : list input :=
   [ (ev_sgn_partial, RPartial 40%N 2 [(7%N, 8%N)] 90);        (* a late answer to an older batch *)
     ex_good 41%N 0;
     (ev_sgn_start, RStart 42%N 1 95 [{| tv_idlen := 3; tv_paylen := 3; tv_start := 0; tv_end := 0 |}] 77%N);  (* a proposal while signing *)
-    (ev_sgn_error, RSigError 1 (Some 9%N) 96);                (* participant 1 reports a failure *)
+    (ev_sgn_error, RSigError 1 (Some 9%N) 96 41%N);           (* participant 1 reports a failure *)
+    (ev_sgn_error, RSigError 2 (Some 9%N) 96 40%N);           (* honest participant 2's late failure report for batch 40 *)
     ex_good 41%N 0;                                            (* a duplicate *)
     ex_good 41%N 2;
     ex_good 41%N 1 ].                                          (* an answer after the collection *)
@@ -585,7 +589,7 @@ Proof.
   - unfold ex_inputs, ex_good.
     repeat (apply Forall_cons;
             [intros i Hi; split;
-             [intros He; try discriminate He; intros e c Heq; inversion Heq; subst; cbn in Hi; intuition discriminate
+             [intros He; try discriminate He; intros e c bb Heq; inversion Heq; subst; cbn in Hi; first [intuition discriminate | split; discriminate]
              |intros He; try discriminate He; intros signs c Heq; inversion Heq; subst;
               exists [(7%N, 8%N)], 100; repeat split; try discriminate; cbn in Hi; intuition lia]|]).
     apply Forall_nil.
@@ -598,14 +602,29 @@ Example ex_collects :
   = [41%N].
 Proof. vm_compute. reflexivity. Qed.
 
-(* ---- the hypothesis "no error report in an honest participant's name" is not idle: an error answer
-   carries no batch identifier, so the (honest, slow) participant 2's error answer to a FINISHED
-   batch, arriving while batch 41 is being signed, is booked on batch 41 - participants 2 and 0 then
-   answer batch 41 correctly (t = 2 correct answers) and nothing is collected; without the stray
-   error answer the same inputs collect the batch ---- *)
+(* a failure report that NAMES a batch other than the one being signed is refused (nothing is
+   persisted): the late report of a slow participant for a batch that is over is harmless *)
+Theorem stale_failure_report_refused now p g b b' pid e created :
+  Aw p g b -> b' <> 0%N -> b' <> b ->
+  round_step now (mkd st_await p) ev_sgn_error (RSigError pid e created b') = SRej.
+Proof.
+  intros Haw H0 Hne. apply round_step_rej.
+  destruct (error_outcomes ev_sgn_error p g b (RSigError pid e created b') Haw)
+    as [Herr|(pid0 & e0 & c0 & bb & part & p' & g' & Heq & Hbb & _)].
+  - exact (do_error_rejected _ _ _ Herr).
+  - inversion Heq; subst. destruct Hbb; contradiction.
+Qed.
+
+(* ---- the hypothesis on failure reports in an honest participant's name is not idle.  A report
+   written by an OLDER version carries no batch identifier (batch 0 here); the (honest, slow)
+   participant 2's report for a FINISHED batch, arriving while batch 41 is being signed, is then
+   booked on batch 41 - participants 2 and 0 answer batch 41 correctly (t = 2 correct answers) and
+   nothing is collected.  The same report naming its batch (40) is refused and the batch is collected;
+   so it is without any report ---- *)
 Definition ex_start41 : input :=
   (ev_sgn_start, RStart 41%N 1 80 [{| tv_idlen := 3; tv_paylen := 3; tv_start := 0; tv_end := 0 |}] 76%N).
 Example late_error_answer_blocks_the_batch :
-  collected 1000 (mkd st_idle ex_ready) [ex_start41; (ev_sgn_error, RSigError 2 (Some 9%N) 96); ex_good 41%N 2; ex_good 41%N 0] = [] /\
+  collected 1000 (mkd st_idle ex_ready) [ex_start41; (ev_sgn_error, RSigError 2 (Some 9%N) 96 0%N); ex_good 41%N 2; ex_good 41%N 0] = [] /\
+  collected 1000 (mkd st_idle ex_ready) [ex_start41; (ev_sgn_error, RSigError 2 (Some 9%N) 96 40%N); ex_good 41%N 2; ex_good 41%N 0] = [41%N] /\
   collected 1000 (mkd st_idle ex_ready) [ex_start41; ex_good 41%N 2; ex_good 41%N 0] = [41%N].
-Proof. vm_compute. split; reflexivity. Qed.
+Proof. vm_compute. repeat split; reflexivity. Qed.
